@@ -201,6 +201,50 @@ func Laws(r *vh.Rng, in Inst, rep *vh.Report, n int) {
 				check("result-of-"+mk.name+"-after-overwriting-operand", res3, keepR, ops())
 				_ = res2
 			}
+			// the value of a result does not depend on what the receiver held before, also when the
+			// result is then used as an operand (internal fields that encodings do not show)
+			{
+				Pc := P.Clone()
+				avt(in, Pc)
+				negPc := np().Neg(Pc)
+				recvs := map[string]func() kyber.Point{
+					"Null":                  func() kyber.Point { return np().Null() },
+					"a computed point":      func() kyber.Point { return np().Add(Q, R) },
+					"a clone of an operand": func() kyber.Point { c := P.Clone(); avt(in, c); return c },
+				}
+				if bp, _ := vh.Try(func() { np().Base() }); !bp {
+					recvs["Base"] = func() kyber.Point { return np().Base() }
+				}
+				if bb, err := R.MarshalBinary(); err == nil {
+					recvs["a decoded point"] = func() kyber.Point {
+						c := np()
+						if c.UnmarshalBinary(bb) != nil {
+							return np().Null()
+						}
+						return c
+					}
+				}
+				opsOn := map[string]func(rc kyber.Point) kyber.Point{
+					"Add(P,P')":  func(rc kyber.Point) kyber.Point { return rc.Add(P, Pc) },
+					"Sub(P,-P')": func(rc kyber.Point) kyber.Point { return rc.Sub(P, negPc) },
+					"Add(P,Q)":   func(rc kyber.Point) kyber.Point { return rc.Add(P, Q) },
+					"Sub(P,P')":  func(rc kyber.Point) kyber.Point { return rc.Sub(P, Pc) },
+					"Neg(P)":     func(rc kyber.Point) kyber.Point { return rc.Neg(P) },
+					"Mul(a,P)":   func(rc kyber.Point) kyber.Point { return rc.Mul(sa, P) },
+					"Set(P)":     func(rc kyber.Point) kyber.Point { return rc.Set(P) },
+				}
+				for rn, mk := range recvs {
+					for on, f := range opsOn {
+						res, ref := f(mk()), f(np())
+						o := ops()
+						o["receiver_held"], o["operation"] = rn, on
+						check("result-depends-on-receiver", res, ref, o)
+						check("result-depends-on-receiver/then-added", np().Add(res, R), np().Add(ref, R), o)
+						check("result-depends-on-receiver/then-subtracted", np().Sub(R, res), np().Sub(R, ref), o)
+						check("result-depends-on-receiver/then-multiplied", np().Mul(sb, res), np().Mul(sb, ref), o)
+					}
+				}
+			}
 			// the efficient endomorphism of j = 0 curves: P, lambda*P and lambda^2*P share a
 			// coordinate; sums of such related points must still be ordinary sums
 			if lam := cubeRoot(q); lam != nil {
